@@ -12,5 +12,7 @@ INVARIANT PresentScanLaw
 INVARIANT ShapeLaw
 INVARIANT ZScanLaw
 INVARIANT ParsedLaw
+INVARIANT SpellLaw
+INVARIANT RevLaw
 INVARIANT Emit
 CHECK_DEADLOCK FALSE
